@@ -233,7 +233,8 @@ def exp_mech_probs(q, eps, sens, coef=0.5, base=None):
     q = np.asarray(q, dtype=float)
     s = coef * eps / sens * q
     if base is not None:
-        s = s + np.log(np.asarray(base, dtype=float))
+        with np.errstate(divide='ignore'):
+            s = s + np.log(np.asarray(base, dtype=float))   # base measure 0 => probability exactly 0
     s = s - s.max()
     w = np.exp(s)
     return w / w.sum()
